@@ -1,6 +1,7 @@
 import ShexerModel.Model.Emit
 import ShexerModel.Model.Ctor
 import ShexerModel.Spec.Counts
+import ShexerModel.Spec.ShExSem
 open Shexer
 
 /-! Line-protocol driver: reads cases from stdin, prints the model's canonical output.
@@ -24,6 +25,8 @@ structure DState where
   /-- triples that take part in the selection of instances (all but those marked `TX`) -/
   selTriples : Array Triple := #[]
   queries : Array Query := #[]
+  /-- shapes handed in from outside (the implementation's output) for the `conf` mode -/
+  shapes : Array Shexer.Shape := #[]
 
 def parseBool (s : String) : Bool := s == "1" || s == "true" || s == "True"
 
@@ -80,6 +83,16 @@ def runCase (st : DState) (what id : String) : List String :=
           "K\t" ++ (if k.1 then "I" else "D") ++ "\t" ++ k.2.1 ++ "\t" ++
             (match k.2.2 with | .datatype d => "dt:" ++ d | .nonliteral => "nonliteral" | .classValue v => "cv:" ++ v)
             ++ "\t" ++ toString (Spec.keyCount st.cfg sel g c k.1 k.2.1 k.2.2)
+    | "conf" =>
+      let sel := Spec.selectionOf st.cfg st.selTriples.toList
+      st.shapes.toList.flatMap fun sh =>
+        (Spec.nonConforming st.cfg sel g sh).map fun n =>
+          "NC\t" ++ sh.classUri ++ "\t" ++ n ++ "\t" ++
+            "|".intercalate ((sh.stmts.filter fun s => !Spec.stmtOk st.cfg sel g n s).map fun s => (if s.inverse then "^" else "") ++ s.prop)
+            ++ "\t" ++ (if Spec.valuesCovered st.cfg sel g n sh then "covered" else "uncovered")
+    | "confmodel" =>
+      let sel := Spec.selectionOf st.cfg st.selTriples.toList
+      (Shexer.run st.cfg g).flatMap fun sh => (Spec.nonConforming st.cfg sel g sh).map fun n => "NC\t" ++ sh.classUri ++ "\t" ++ n
     | "spec" =>
       let sel := Spec.selectionOf st.cfg st.selTriples.toList
       st.queries.toList.map fun q =>
@@ -147,6 +160,13 @@ def stepLine (st : DState) (line : String) : DState × List String :=
     let t : Triple := { s := mkTerm sk s, p := p, o := mkTerm ok o }
     ({ st with triples := st.triples.push t, selTriples := st.selTriples.push t }, [])
   | ["TX", sk, s, p, ok, o] => ({ st with triples := st.triples.push { s := mkTerm sk s, p := p, o := mkTerm ok o } }, [])
+  | ["SH", name, cls, n] =>
+    ({ st with shapes := st.shapes.push { name := name, classUri := cls, nInstances := n.toNat?.getD 0, stmts := [] } }, [])
+  | ["S", inv, p, tys, card] =>
+    let stm : Shexer.Stmt := { prop := p, types := tys.splitOn "|", choice := (tys.splitOn "|").length > 1, card := parseCard card, n := 0, inverse := inv == "I" }
+    (match st.shapes.back? with
+     | some sh => ({ st with shapes := st.shapes.pop.push { sh with stmts := sh.stmts ++ [stm] } }, [])
+     | none => (st, ["bad-op\tS before SH"]))
   | ["Q", c, inv, p, ty, card] =>
     ({ st with queries := st.queries.push { cls := c, inv := inv == "I", prop := p, ty := ty, card := parseCard card } }, [])
   | ["RUN", what, id] => ({}, runCase st what id)
